@@ -47,6 +47,7 @@ type Program struct {
 	specText   string
 	specFileOf map[string]string
 	specNeeds  map[string][]string
+	specWhen   map[string][]string
 	specBodies map[string]string
 	specOrder  []string
 	lemmas     []*Lemma
@@ -126,7 +127,7 @@ func (P *Program) specAccessor(name string) string {
 
 func loadProgram(repo, verif string) (*Program, error) {
 	P := &Program{repo: repo, verif: verif, funcs: map[string]*ssa.Function{}, contracts: map[string]*Contract{}, specFuncs: map[string]specSig{},
-		specConsts: map[string]string{}, specAcc: map[string]string{}, specFileOf: map[string]string{}, specNeeds: map[string][]string{}, specBodies: map[string]string{}, disabledAuto: map[string]bool{}, extraFrameHeap: map[string]bool{}, assumptions: map[string]bool{}}
+		specConsts: map[string]string{}, specAcc: map[string]string{}, specFileOf: map[string]string{}, specNeeds: map[string][]string{}, specWhen: map[string][]string{}, specBodies: map[string]string{}, disabledAuto: map[string]bool{}, extraFrameHeap: map[string]bool{}, assumptions: map[string]bool{}}
 	P.fset = token.NewFileSet()
 	cfg := &packages.Config{Mode: packages.LoadSyntax, Dir: repo, Fset: P.fset, BuildFlags: []string{"-tags=verif"},
 		Env: append(os.Environ(), "GOFLAGS=-mod=mod", "GOPROXY=off", "GOSUMDB=off", "GOTOOLCHAIN=local")}
@@ -234,6 +235,10 @@ func (P *Program) loadSpecs(dir string) error {
 			} else if m := constRe.FindStringSubmatch(t); m != nil {
 				P.specConsts[m[1]] = strings.TrimSpace(m[2])
 				P.specFileOf[m[1]] = filepath.Base(f)
+			} else if strings.HasPrefix(t, ";; when ") {
+				for _, w := range strings.Fields(t[len(";; when "):]) {
+					P.specWhen[w] = append(P.specWhen[w], filepath.Base(f))
+				}
 			} else if strings.HasPrefix(t, ";; needs ") {
 				P.specNeeds[filepath.Base(f)] = append(P.specNeeds[filepath.Base(f)], strings.Fields(t[len(";; needs "):])...)
 			}
@@ -324,6 +329,13 @@ func (P *Program) specTextFor(body string) string {
 	for name, f := range P.specFileOf {
 		if strings.Contains(body, "("+name+" ") || strings.Contains(body, " "+name+" ") || strings.Contains(body, " "+name+")") {
 			need[f] = true
+		}
+	}
+	for name, fs := range P.specWhen {
+		if strings.Contains(body, "("+name+" ") {
+			for _, f := range fs {
+				need[f] = true
+			}
 		}
 	}
 	changed := true
